@@ -17,7 +17,20 @@ import (
 type rev struct {
 	K string   `json:"kind"`
 	O []string `json:"ops"` // per object number 1..N
+	// T lists the optional keys of the revision's trailer: "Info", "XX".
+	T []string `json:"tr"`
 }
+
+func (r rev) has(key string) bool {
+	for _, k := range r.T {
+		if k == key {
+			return true
+		}
+	}
+	return false
+}
+
+var fullTrailer = []string{"Info", "XX"}
 
 type history []rev
 
@@ -31,6 +44,13 @@ func (h history) key() string {
 		for _, o := range r.O {
 			b.WriteString(o)
 			b.WriteByte(',')
+		}
+		if len(r.T) != 2 {
+			b.WriteString("tr=")
+			for _, k := range r.T {
+				b.WriteString(k)
+				b.WriteByte(',')
+			}
 		}
 		b.WriteByte(';')
 	}
@@ -101,21 +121,29 @@ type built struct {
 	doc    *ser.Doc
 	values map[[2]int]obj.Value // (n, r) -> value
 	cat    uint32
-	info   uint32
+	info   uint32 // information dictionary of the newest trailer (0: none)
+	h      history
 	crypt  *cryptSetup
 }
 
+// infoNum is the number of the information dictionary revision r writes.
+func (b *built) infoNum(r int) uint32 { return b.cat + 1 + uint32(r) }
+
 // concretise turns a model history into a document for the serialiser:
-// objects 1..N as the history says, plus a catalog (N+1), a page tree root
-// (N+2) and an information dictionary (N+3) written by the first revision.
+// objects 1..N as the history says, plus a catalog (N+1) and a page tree root
+// (N+2) written by the first revision, and for every revision r whose trailer
+// has /Info an information dictionary of its own (N+2+r, /Title "history r").
 func concretise(h history, rng *rand.Rand, cs *cryptSetup) *built {
 	n := h.nObj()
 	b := &built{doc: &ser.Doc{Version: []string{"1.5", "1.6", "1.7", "2.0"}[rng.Intn(4)]}, values: map[[2]int]obj.Value{},
-		cat: uint32(n + 1), info: uint32(n + 3), crypt: cs}
+		cat: uint32(n + 1), h: h, crypt: cs}
+	if h[len(h)-1].has("Info") {
+		b.info = b.infoNum(len(h))
+	}
 	if cs != nil {
 		b.doc.Version = cs.version
 		if cs.indirect {
-			b.doc.EncryptRef = obj.Ref{Num: uint32(n + 4)}
+			b.doc.EncryptRef = obj.Ref{Num: uint32(n + 3 + len(h))}
 		}
 	}
 	pages := uint32(n + 2)
@@ -153,11 +181,15 @@ func concretise(h history, rng *rand.Rand, cs *cryptSetup) *built {
 			inStm := sr.Kind == ser.Stream && rng.Intn(2) == 0
 			sr.Ops = append(sr.Ops,
 				ser.Op{Num: b.cat, Kind: ser.Define, Value: obj.Dict{"Type": obj.Name("Catalog"), "Pages": obj.Ref{Num: pages}}, InObjStm: inStm},
-				ser.Op{Num: pages, Kind: ser.Define, Value: obj.Dict{"Type": obj.Name("Pages"), "Kids": obj.Array{}, "Count": obj.Int(0)}, InObjStm: inStm && rng.Intn(2) == 0},
-				ser.Op{Num: b.info, Kind: ser.Define, Value: obj.Dict{"Title": obj.Str("history")}})
+				ser.Op{Num: pages, Kind: ser.Define, Value: obj.Dict{"Type": obj.Name("Pages"), "Kids": obj.Array{}, "Count": obj.Int(0)}, InObjStm: inStm && rng.Intn(2) == 0})
 			if cs != nil && cs.indirect {
 				sr.Ops = append(sr.Ops, ser.Op{Num: b.doc.EncryptRef.Num, Kind: ser.Define, Value: cs.dict})
 			}
+		}
+		if rv.has("Info") {
+			sr.Ops = append(sr.Ops, ser.Op{Num: b.infoNum(r), Kind: ser.Define,
+				Value:    obj.Dict{"Title": obj.Str(fmt.Sprintf("history %d", r)), "Producer": obj.Str("indep/ser")},
+				InObjStm: sr.Kind == ser.Stream && rng.Intn(3) == 0})
 		}
 		sr.Trailer = trailerOf(b, r)
 		b.doc.Revisions = append(b.doc.Revisions, sr)
@@ -177,13 +209,46 @@ func trailerOf(b *built, r int) obj.Dict {
 	return d
 }
 
+func idOf(r int) string { return fmt.Sprintf("revision-%07d", r) }
+
 func trailerBase(b *built, r int) obj.Dict {
-	return obj.Dict{
-		"Root":   obj.Ref{Num: b.cat},
-		"Info":   obj.Ref{Num: b.info},
-		"ID":     obj.Array{obj.Str("0123456789abcdef"), obj.Str(fmt.Sprintf("revision-%07d", r))},
-		"XX_Rev": obj.Int(r),
+	d := obj.Dict{
+		"Root": obj.Ref{Num: b.cat},
+		"ID":   obj.Array{obj.Str("0123456789abcdef"), obj.Str(idOf(r))},
 	}
+	if b.h[r-1].has("Info") {
+		d["Info"] = obj.Ref{Num: b.infoNum(r)}
+	}
+	if b.h[r-1].has("XX") {
+		d["XX_Rev"] = obj.Int(r)
+	}
+	return d
+}
+
+// trailerObs says, per item GetMeta() reports, which revision's value it is
+// (0: absent, -1: a value of no revision).
+type trailerObs struct {
+	ID       int `json:"ID"`
+	Info     int `json:"Info"`
+	XX       int `json:"XX"`
+	MetaInfo int `json:"MetaInfo"`
+	MetaID   int `json:"MetaID"`
+	Other    int `json:"Other"`
+}
+
+// expectedTrailer is the harness's own reading (newest trailer only), used
+// for the table comparison and to describe failures; TLC judges with
+// RefTrailer.
+func expectedTrailer(h history) trailerObs {
+	l := len(h)
+	t := trailerObs{ID: l, MetaID: l}
+	if h[l-1].has("Info") {
+		t.Info, t.MetaInfo = l, l
+	}
+	if h[l-1].has("XX") {
+		t.XX = l
+	}
+	return t
 }
 
 // observation of the real reader on one rendered history
@@ -192,12 +257,12 @@ type probe struct {
 }
 
 type histRecord struct {
-	T       string   `json:"t"` // "hist"
-	H       history  `json:"h"`
-	Open    bool     `json:"open"`
-	Probes  [][3]int `json:"probes"` // n, g, result: revision number, 0 null, -1 error, -2 unknown value
-	Trailer int      `json:"trailer"`
-	Crypt   string   `json:"crypt"`
+	T       string     `json:"t"` // "hist"
+	H       history    `json:"h"`
+	Open    bool       `json:"open"`
+	Probes  [][3]int   `json:"probes"` // n, g, result: revision number, 0 null, -1 error, -2 unknown value
+	Trailer trailerObs `json:"trailer"`
+	Crypt   string     `json:"crypt"`
 	// not judged: diagnostics
 	Err  string `json:"err,omitempty"`
 	Seed int64  `json:"seed"`
@@ -302,22 +367,71 @@ func observe(h history, b *built, data []byte, size uint32, seed int64) histReco
 		}
 		rec.Probes = append(rec.Probes, [3]int{p.N, p.G, res})
 	}
-	// which revision's trailer entries are reported?
-	tr := shared.FromPDF(r.GetMeta().Trailer)
+	// which revisions' trailer entries does GetMeta() report?
+	meta := r.GetMeta()
+	tr := shared.FromPDF(meta.Trailer)
 	td, _ := tr.(obj.Dict)
-	for k := 1; k <= len(h); k++ {
-		want := trailerBase(b, k)
-		ok := td != nil
-		for key, w := range want {
-			if ok && !obj.Equal(td[key], w) {
-				ok = false
+	t := &rec.Trailer
+	for key, v := range td {
+		switch key {
+		case "Root":
+			if !obj.Equal(v, obj.Ref{Num: b.cat}) {
+				t.Other++
 			}
-		}
-		if ok {
-			rec.Trailer = k
+		case "ID":
+			t.ID = -1
+			if a, ok := v.(obj.Array); ok && len(a) == 2 && obj.Equal(a[0], obj.Str("0123456789abcdef")) {
+				for k := 1; k <= len(h); k++ {
+					if obj.Equal(a[1], obj.Str(idOf(k))) {
+						t.ID = k
+					}
+				}
+			}
+		case "Info":
+			t.Info = -1
+			for k := 1; k <= len(h); k++ {
+				if h[k-1].has("Info") && obj.Equal(v, obj.Ref{Num: b.infoNum(k)}) {
+					t.Info = k
+				}
+			}
+		case "XX_Rev":
+			t.XX = -1
+			if n, ok := v.(obj.Int); ok && n >= 1 && int(n) <= len(h) && h[n-1].has("XX") {
+				t.XX = int(n)
+			}
+		case "Encrypt":
+			if b.crypt == nil {
+				t.Other++
+			}
+		default:
+			t.Other++
 		}
 	}
-	if rec.Trailer == 0 && rec.Note == "" {
+	if _, ok := td["Root"]; !ok {
+		t.Other++
+	}
+	if _, ok := td["Encrypt"]; !ok && b.crypt != nil {
+		t.Other++
+	}
+	if meta.Info != nil {
+		t.MetaInfo = -1
+		for k := 1; k <= len(h); k++ {
+			if string(meta.Info.Title) == fmt.Sprintf("history %d", k) {
+				t.MetaInfo = k
+			}
+		}
+	}
+	if meta.ID != nil {
+		t.MetaID = -1
+		if len(meta.ID) == 2 && string(meta.ID[0]) == "0123456789abcdef" {
+			for k := 1; k <= len(h); k++ {
+				if string(meta.ID[1]) == idOf(k) {
+					t.MetaID = k
+				}
+			}
+		}
+	}
+	if rec.Trailer != expectedTrailer(h) && rec.Note == "" {
 		rec.Note = "trailer = " + obj.String(tr)
 	}
 	return rec
